@@ -87,6 +87,8 @@ class Connection(object):
     self.opened_at = None
     self.closed_at = None
     self.started_at = CLOCK.now
+    opener = net.current_opener
+    self.owner_created_at = getattr(opener, 'sim_created_at', None)
 
   # -- server -> client ----------------------------------------------------
   def _push_s2c(self, item, delay):
@@ -227,6 +229,7 @@ class Net(object):
     self.send_log = []        # (seq, time, conn id, bytes)
     self.oplog = []           # (conn id, op index, kind) for pilot runs
     self.record_ops = cfg.get('record_ops', False)
+    self.current_opener = None
     Net.INSTANCE = self
 
   # -- helpers -------------------------------------------------------------
@@ -397,23 +400,41 @@ class FakeGSocket(object):
     conn.ops += 1
     kind = d.kind if d else None
     net.note('conn' + conn.id, 'connect')
-    if kind == 'hang' or (kind is None and ep.mode == 'blackhole'):
-      net.count('connect_hang')
-      ep.attempts.append((CLOCK.now, 'hang'))
-      self._wait('_wwaiter')            # only a timeout/kill/close ends this
-      raise _err(errno.ETIMEDOUT)
     if kind == 'timeout':
       net.count('connect_timeout')
       ep.attempts.append((CLOCK.now, 'timeout'))
       self._sleep(float(d.arg or 21.0))
       raise _err(errno.ETIMEDOUT)
-    self._sleep(2 * net.lat(ep))
-    if kind == 'refuse' or kind == 'exc' or (kind is None and ep.mode != 'up'):
-      if ep.mode == 'blackhole' and kind is None:
-        net.count('connect_hang')
-        ep.attempts.append((CLOCK.now, 'hang'))
-        self._wait('_wwaiter')
+    blackholed = kind == 'hang' or (kind is None and ep.mode == 'blackhole')
+    if not blackholed:
+      self._sleep(2 * net.lat(ep))
+      blackholed = kind is None and ep.mode == 'blackhole'
+    if blackholed:
+      # SYNs vanish.  The kernel retransmits at 1, 3, 7, 15, 31, 63 s and gives
+      # up with ETIMEDOUT at 127 s; a retransmit that finds the peer reachable
+      # (or refusing) ends the wait.
+      net.count('connect_hang')
+      ep.attempts.append((CLOCK.now, 'hang'))
+      t0 = CLOCK.now
+      outcome = None
+      for at in (1, 3, 7, 15, 31, 63, 127):
+        self._sleep(max(0.0, t0 + at - CLOCK.now))
+        if at == 127:
+          break
+        if kind == 'hang':
+          continue
+        if ep.mode == 'up':
+          outcome = 'ok'
+          break
+        if ep.mode == 'refuse':
+          outcome = 'refuse'
+          break
+      if outcome is None:
+        net.note('conn' + conn.id, 'syn_timeout')
         raise _err(errno.ETIMEDOUT)
+      if outcome == 'refuse':
+        kind = 'refuse'
+    if kind == 'refuse' or kind == 'exc' or (kind is None and ep.mode == 'refuse'):
       net.count('connect_refused')
       ep.attempts.append((CLOCK.now, 'refused'))
       net.note('conn' + conn.id, 'refused')
